@@ -2,27 +2,42 @@ package main
 
 import (
 	"bytes"
+	"path/filepath"
 
 	"k8s.io/gengo/v2/generator"
+	"k8s.io/gengo/v2/namer"
 	"verif/common"
 )
+
+func asmFile(a *common.AsmFile) *generator.File {
+	f := &generator.File{Name: "zz.go", FileType: "go", PackageName: a.PkgName, Header: []byte(a.Header), Imports: map[string]struct{}{}}
+	for _, i := range a.Imports {
+		f.Imports[i] = struct{}{}
+	}
+	f.Vars.WriteString(a.Vars)
+	f.Consts.WriteString(a.Consts)
+	f.Body.WriteString(a.Body)
+	return f
+}
 
 func init() {
 	ft := generator.NewGoFile()
 	props["C09"] = common.AsmProperty(common.AsmImpl{
 		V2: true,
 		Assemble: func(a *common.AsmFile) []byte {
-			f := &generator.File{Name: "zz.go", FileType: "go", PackageName: a.PkgName, Header: []byte(a.Header), Imports: map[string]struct{}{}}
-			for _, i := range a.Imports {
-				f.Imports[i] = struct{}{}
-			}
-			f.Vars.WriteString(a.Vars)
-			f.Consts.WriteString(a.Consts)
-			f.Body.WriteString(a.Body)
 			var b bytes.Buffer
-			ft.Assemble(&b, f)
+			ft.Assemble(&b, asmFile(a))
 			return b.Bytes()
 		},
-		Format: ft.Format,
+		Format:       ft.Format,
+		AssembleFile: func(a *common.AsmFile, path string) error { return ft.AssembleFile(asmFile(a), path) },
+		PackageRun: func(header, doc []byte, otherBody, dir string) error {
+			c := &generator.Context{Namers: namer.NameSystems{}, FileTypes: map[string]generator.FileType{generator.GoFileType: generator.NewGoFile()}}
+			t := generator.SimpleTarget{PkgName: "demo", PkgPath: "example.com/demo", PkgDir: filepath.Join(dir, "demo"), HeaderComment: header, PkgDocComment: doc,
+				GeneratorsFunc: func(*generator.Context) []generator.Generator {
+					return []generator.Generator{generator.GoGenerator{OutputFilename: "doc.go"}, generator.GoGenerator{OutputFilename: "other.go", OptionalBody: []byte(otherBody)}}
+				}}
+			return c.ExecuteTarget(t)
+		},
 	})
 }
